@@ -77,3 +77,99 @@ def gradient_lists_in_order(fn, names):
             if used and not isinstance(it, ast.Name):
                 problems.append(f"`{ast.unparse(it)}` (line {it.lineno}) re-orders or subsets the gradient list {sorted(used)}")
     return problems
+
+
+# ---------------------------------------------------------------------------- canonical source text
+# Rules that compare source text do so on a canonical spelling in which the operands of commutative
+# arithmetic are ordered, keyword arguments are sorted and redundant parentheses vanish, so that a
+# behaviour-preserving re-ordering of `a * b` or `f(x=1, y=2)` never changes a verdict.
+import copy as _copy
+
+
+def _is_seq_like(n):
+    return isinstance(n, (ast.List, ast.Tuple, ast.ListComp, ast.JoinedStr, ast.Dict, ast.Set)) or (
+        isinstance(n, ast.Constant) and isinstance(n.value, (str, bytes)))
+
+
+class _Canon(ast.NodeTransformer):
+    def _flatten(self, node, op_type):
+        if isinstance(node, ast.BinOp) and isinstance(node.op, op_type):
+            return self._flatten(node.left, op_type) + self._flatten(node.right, op_type)
+        return [node]
+
+    def visit_BinOp(self, node):
+        self.generic_visit(node)
+        if isinstance(node.op, (ast.Mult, ast.Add)):
+            ops = self._flatten(node, type(node.op))
+            if not any(_is_seq_like(o) for o in ops):
+                ops = sorted(ops, key=lambda n: ast.unparse(n))
+                out = ops[0]
+                for o in ops[1:]:
+                    out = ast.BinOp(left=out, op=type(node.op)(), right=o)
+                return ast.copy_location(out, node)
+        return node
+
+    def visit_Call(self, node):
+        self.generic_visit(node)
+        if all(k.arg is not None for k in node.keywords):
+            node.keywords = sorted(node.keywords, key=lambda k: k.arg)
+        return node
+
+
+def _canon_text(node):
+    t = _Canon().visit(_copy.deepcopy(node))
+    ast.fix_missing_locations(t)
+    return ast.unparse(t)
+
+
+def _canon_literal(text):
+    """Canonical spelling of a code fragment given as a string; unparsable fragments are returned unchanged."""
+    t = text.strip()
+    try:
+        return _canon_text(ast.parse(t, mode="eval").body)
+    except SyntaxError:
+        pass
+    try:
+        return _canon_text(ast.parse(t))
+    except SyntaxError:
+        pass
+    # a bare generator / comprehension body:  `f(x) for x in xs`
+    for l, r in (("(", ")"), ("[", "]")):
+        try:
+            out = _canon_text(ast.parse(l + t + r, mode="eval").body)
+            return out[1:-1] if out.startswith(l) and out.endswith(r) else out
+        except SyntaxError:
+            continue
+    # a compound-statement header:  `for i in xs:` / `if c:`
+    for suffix in (" pass", "\n    pass"):
+        try:
+            out = _canon_text(ast.parse(t + suffix))
+            out = out[: out.rfind("pass")].rstrip()
+            return out
+        except SyntaxError:
+            continue
+    return text
+
+
+class CText(str):
+    """Canonical source text: comparisons and containment canonicalise the other operand first."""
+    def __eq__(self, other):
+        if isinstance(other, str) and not isinstance(other, CText):
+            return str.__eq__(self, _canon_literal(other))
+        return str.__eq__(self, other)
+
+    def __ne__(self, other):
+        return not self.__eq__(other)
+
+    def __hash__(self):
+        return str.__hash__(self)
+
+    def __contains__(self, item):
+        if isinstance(item, str) and not isinstance(item, CText):
+            return str.__contains__(self, _canon_literal(item)) or str.__contains__(self, item)
+        return str.__contains__(self, item)
+
+
+def U(node):
+    """Canonical text of an AST node (use instead of ast.unparse wherever text is compared)."""
+    return CText(_canon_text(node))
